@@ -534,7 +534,7 @@ impl RunState {
                 let mut addr = self.reg(0);
                 'string: loop {
                     let chr_raw = self.mem(addr);
-                    for chr in [chr_raw >> 8, chr_raw & 0xFF] {
+                    for chr in [chr_raw & 0xFF, chr_raw >> 8] {
                         let chr_ascii = chr as u8 as char;
                         if chr_ascii == '\0' {
                             break 'string;
